@@ -54,7 +54,7 @@ m = {
  "hooks": {"guard": "futures_intrusive_verif",
            "enable": "RUSTFLAGS '--cfg futures_intrusive_verif' via /verif/.cargo/config.toml; the engines depend on /repo by path, so cargo rebuilds the crate from the current working tree on every check",
            "baseline_off_cmd": "cd /repo && cargo test --workspace --no-fail-fast --offline",
-           "source_commits": ["a1d0d6c", "091b13f", "2f130d4", "4863d9c", "d64462a", "3204aca", "05efe38"], "add_only": True},
+           "source_commits": ["a1d0d6c", "091b13f", "2f130d4", "4863d9c", "d64462a", "3204aca", "05efe38", "68ca517"], "add_only": True},
  "engines": [
   {"name": "E-SEQ", "path": "/verif/engine", "serves_properties": [c for c in T if T[c][0] == "E-SEQ"], "kind_free_text": "explicit-state BFS whose transition function is the real crate (state = replayed operation history), monitors per property"},
   {"name": "E-DS", "path": "/verif/engine/src/sys_ds.rs", "serves_properties": ["C19", "C20"], "kind_free_text": "exhaustive operation-sequence enumeration of ring buffers, intrusive list and pairing heap"},
